@@ -29,13 +29,14 @@ type fault struct {
 	K     int    `json:"k"`     // byte offset / callback index / packet position
 	Gate  string `json:"gate"`  // gate at which an exception is injected or the context is cancelled
 	Occ   int    `json:"occ"`   // occurrence of that gate (1-based)
+	Block bool   `json:"peer_stops_reading,omitempty"` // from the moment of cancellation on the peer accepts no more bytes (writes block)
 	WFail bool   `json:"cancel_write_fails,omitempty"` // from the moment of cancellation on, every write on the connection fails
 	Far   bool   `json:"far_deadline,omitempty"` // the caller's context also carries a deadline far beyond the read timeout
 	Sched string `json:"sched"` // "" | recv-first (sender resumes after the receiver has handled the injected packet) | watch-first (the cancel-watch checks before the failing receiver has returned)
 }
 
 func (f fault) String() string {
-	return fmt.Sprintf("%s k=%d gate=%s#%d sched=%s far=%v wfail=%v", f.Kind, f.K, f.Gate, f.Occ, f.Sched, f.Far, f.WFail)
+	return fmt.Sprintf("%s k=%d gate=%s#%d sched=%s far=%v wfail=%v block=%v", f.Kind, f.K, f.Gate, f.Occ, f.Sched, f.Far, f.WFail, f.Block)
 }
 
 type scenSpec struct {
@@ -68,6 +69,7 @@ type scenOutcome struct {
 	goroutinesBefore, goroutinesAfter int
 	cancelAtWritten int // len(written) when the context was cancelled
 	srvUnread int // server bytes fed but not read when Do returned
+	nextPanic string // the request after the failed query panicked
 }
 
 var errCallbackFault = errors.New("callback: injected failure")
@@ -276,6 +278,10 @@ func runScenario(sp scenSpec, f fault, rt time.Duration) (*scenOutcome, error) {
 		conn.mu.Unlock()
 	}
 	exc := enc.exception([]srvExc{{241, "DB::Exception", "DB::Exception: memory limit", "st"}})
+	if f.Kind == "exception-cut" || f.Kind == "exception-garbled" {
+		// a chain of two: the cut / the damage may fall into the nested exception
+		exc = enc.exception([]srvExc{{241, "DB::Exception", "DB::Exception: memory limit", "st"}, {60, "DB::Exception", "DB::Exception: nested cause", "st2"}})
+	}
 
 	// ---------------- gates: server reactions, fault injection, schedule
 	parent, cancelParent := context.WithCancel(context.Background())
@@ -330,12 +336,17 @@ func runScenario(sp scenSpec, f fault, rt time.Duration) (*scenOutcome, error) {
 		}
 		if point == f.Gate && n == f.Occ {
 			switch f.Kind {
-			case "exception", "exception+write-error", "exception-cut":
+			case "exception", "exception+write-error", "exception-cut", "exception-garbled":
 				mu.Lock()
 				excSent = true
 				mu.Unlock()
 				if f.Kind == "exception-cut" {
-					conn.feed(exc[:1+f.K%(len(exc)-1)])
+					conn.feed(exc[:1+f.K*(len(exc)-2)/1000]) // K in permille of the packet
+					conn.setEOF()
+				} else if f.Kind == "exception-garbled" {
+					g := append([]byte(nil), exc...)
+					g[len(g)-1] = 7 // the Nested flag of the last exception is not a boolean
+					conn.feed(g)
 					conn.setEOF()
 				} else {
 					conn.feed(exc)
@@ -361,6 +372,11 @@ func runScenario(sp scenSpec, f fault, rt time.Duration) (*scenOutcome, error) {
 				if f.WFail {
 					conn.mu.Lock()
 					conn.failWriteAt = len(conn.written)
+					conn.mu.Unlock()
+				}
+				if f.Block {
+					conn.mu.Lock()
+					conn.blockWritesAt = len(conn.written)
 					conn.mu.Unlock()
 				}
 				cancelParent()
@@ -440,7 +456,9 @@ func runScenario(sp scenSpec, f fault, rt time.Duration) (*scenOutcome, error) {
 			conn.feed(enc.pong())
 		}
 		w0 := len(w)
-		out.pingErr = sc.client.Ping(pctx)
+		if p, msg := safely(func() { out.pingErr = sc.client.Ping(pctx) }); p {
+			out.nextPanic = msg
+		}
 		w2, _, _, _ := conn.snapshot()
 		out.postWritten = w2[w0:]
 		sc.client.Close()
@@ -521,6 +539,10 @@ func checkC04(R *Result, sp scenSpec, f fault, o, base *scenOutcome) {
 		return
 	}
 	R.Count("after:open")
+	if o.nextPanic != "" {
+		viol("next-request-panics", "client left open after the failed query; the next Ping panicked: "+o.nextPanic)
+		return
+	}
 	// open: both directions at a packet boundary
 	if !bytes.Equal(o.postWritten, []byte{4}) {
 		key := "stale-bytes-before-next-request"
@@ -626,7 +648,7 @@ func abstractScenario(sp scenSpec, f fault, base *scenOutcome) (acts, pkts strin
 		p = "o,bm"
 	case "exception", "exception+write-error":
 		p = "o,x"
-	case "exception-cut":
+	case "exception-cut", "exception-garbled":
 		p = "o,em"
 	default:
 		return "", "", false
@@ -767,10 +789,11 @@ func c04Faults(r *Rng, sp scenSpec, base *scenOutcome, thorough bool) []fault {
 					fs = append(fs, fault{Kind: "exception", Gate: g, Occ: occ, Sched: s})
 				}
 				if g == "sender.afterQueryFlush" || g == "sender.done" || g == "sender.afterInputFlush" && occ == 1 {
-					for _, s := range []string{"", "watch-first"} {
-						fs = append(fs, fault{Kind: "exception-cut", Gate: g, Occ: occ, K: r.Intn(64), Sched: s})
+					for _, pm := range []int{0, 120, 450, 560, 700, 850, 990} {
+						s := []string{"", "watch-first"}[r.Intn(2)]
+						fs = append(fs, fault{Kind: "exception-cut", Gate: g, Occ: occ, K: pm, Sched: s})
 					}
-					fs = append(fs, fault{Kind: "exception-cut", Gate: g, Occ: occ, K: 0})
+					fs = append(fs, fault{Kind: "exception-garbled", Gate: g, Occ: occ})
 				}
 				// a write failing while the exception arrives
 				if g == "sender.beforeInputFlush" || g == "sender.beforeFinalFlush" || g == "sender.afterEncodeQuery" {
@@ -869,6 +892,9 @@ func checkC10(R *Result, sp scenSpec, f fault, o, base *scenOutcome, rt time.Dur
 	if f.Kind == "deadline" {
 		limit += time.Duration(f.K) * time.Millisecond
 	}
+	if f.Block {
+		limit += 1100 * time.Millisecond // the Cancel write gives up at its own 1s deadline
+	}
 	if o.elapsed > limit+time.Duration(len(base.gates))*time.Millisecond {
 		viol("cancel-not-prompt", fmt.Sprintf("Do returned %v after start; limit %v (read timeout %v + grace)", o.elapsed, limit, rt))
 	}
@@ -895,7 +921,7 @@ func checkC10(R *Result, sp scenSpec, f fault, o, base *scenOutcome, rt time.Dur
 		if o.fed >= base.srvLen && o.srvUnread == 0 && inInts(flushBounds(base), n) && bytes.Equal(o.written, base.written[:min(n, len(base.written))]) {
 			// the whole response including EndOfStream had been consumed: the query was over at the server, nothing to cancel
 			R.Count("cancel:after-end-of-stream")
-		} else if f.WFail && inInts(flushBounds(base), n) {
+		} else if (f.WFail || f.Block) && inInts(flushBounds(base), n) {
 			R.Count("cancel:packet-write-failed")
 		} else if recvEndedFirst && inInts(flushBounds(base), n) && bytes.Equal(o.written, base.written[:min(n, len(base.written))]) {
 			// the server had already ended the query when the context was cancelled: nothing to cancel
@@ -954,6 +980,10 @@ func runC10(c *Ctx) {
 				if strings.HasPrefix(g, "sender.") && (occ == 1 || c.Thorough) {
 					fs = append(fs, fault{Kind: "cancel", Gate: g, Occ: occ, Far: true})
 					fs = append(fs, fault{Kind: "cancel", Gate: g, Occ: occ, WFail: true})
+					if g == "sender.afterEncodeQuery" || g == "sender.beforeInputFlush" || g == "sender.beforeFinalFlush" {
+						// the peer stops reading: the pending flush and the Cancel write both block until the write deadline
+						fs = append(fs, fault{Kind: "cancel", Gate: g, Occ: occ, Block: true, Sched: "held"})
+					}
 					fs = append(fs, fault{Kind: "cancel", Gate: g, Occ: occ, Sched: "recv-first"})
 				}
 			}
@@ -970,7 +1000,7 @@ func runC10(c *Ctx) {
 			R.Count("cancel-at:" + f.Gate)
 			R.Count("result:" + o.errClass)
 			checkC10(R, sp, f, o, base, rt)
-			if f.Kind == "cancel" && !f.WFail {
+			if f.Kind == "cancel" && !f.WFail && !f.Block {
 				correspondDo(c, sp, f, o, base, true)
 			}
 		}
